@@ -2,10 +2,12 @@ import SonicSpec.Model.Hex
 import SonicSpec.Driver.Str
 import SonicSpec.Driver.Num
 import SonicSpec.Driver.Loader
+import SonicSpec.Driver.Own
+import SonicSpec.Driver.Mem
 namespace SonicSpec.Driver
 
 def handlers : List (List String → Option String) :=
-  [ Str.handle, Num.handle, Loader.handle ]
+  [ Str.handle, Num.handle, Loader.handle, Own.handle, Mem.handle ]
 
 /-- one protocol line in (already split at tabs), one result line out -/
 def dispatch (parts : List String) : String :=
